@@ -6,6 +6,7 @@ import Model.C06.BitRegroup
 import Model.C06.Base58
 import Model.C06.Address
 import Model.C06.KeyText
+import Model.C06.Slip132
 import Generated.Bech32
 import Generated.Base58
 import Generated.Segwit
@@ -150,6 +151,18 @@ def handle : List String → String
     match text? txt with
     | some t => cls Address.Err.cls (Address.fromAddress hash256 t) fun (s, n) => s!"{toHex s} {n}"
     | none => "bad-op"
+  | ["slip132.kind", ver] =>
+    match fromHex? ver with
+    | some v => match Slip132.addressKind (Address.toNats v) with
+      | some k => s!"ok {k}"
+      | none => "ok none"
+    | none => "bad-op"
+  | ["slip132.version", ver, k] =>
+    match fromHex? ver, k.toNat? with
+    | some v, some k => match Slip132.versionFor (Address.toNats v) k with
+      | some r => "ok " ++ toHex (Address.ofNats r)
+      | none => "err value"
+    | _, _ => "bad-op"
   | ["wif.enc", net, q, compr] =>
     match Address.networkNamed net, q.toNat? with
     | some n, some q => "ok " ++ textHex (KeyText.wifEncode hash256 n 32 q (compr == "True"))
